@@ -72,11 +72,15 @@ DenseStep(st, o, C, K) ==
     [] o.op = "iter_len"      -> [st |-> st, obs |-> Len(m)]
     [] o.op = "get"           -> [st |-> st, obs |-> m[o.i][o.j]]
     [] o.op = "eq"            -> [st |-> st, obs |-> (st.a = st.b)]
+    \* a coordinate outside the rows x columns table is refused (the call panics), whatever memory lies behind it:
+    \* nothing is returned and nothing changes
+    [] o.op \in {"get_oob", "set_oob"} -> [st |-> st, obs |-> "refused"]
 
 \* which operations are in contract in a given state (indices inside the table)
 InContract(st, o, C) ==
   LET m == st[o.tgt] IN
   CASE o.op \in {"set", "get"} -> o.i \in 1..Len(m) /\ o.j \in 1..C
+    [] o.op \in {"get_oob", "set_oob"} -> ~(o.i \in 1..Len(m) /\ o.j \in 1..C) /\ o.i >= 1 /\ o.j >= 1
     [] o.op = "set_row"        -> o.i \in 1..Len(m) /\ Len(o.row) = C
     [] o.op = "from_rows"      -> \A i \in 1..Len(o.rows) : Len(o.rows[i]) = C
     [] OTHER                   -> TRUE
